@@ -97,8 +97,9 @@ fn strategy() -> impl Strategy<Value = RoCase> {
         let vol = gen::decode_vol(&sg, &rv);
         let nt = NameTable::new(&sg, &extra);
         let cs = vol.cluster_size();
-        let setup = s_raw.iter().flat_map(|r| gen::decode_op(&sg, &nt, cs, r)).collect();
-        let ro = r_raw.iter().flat_map(|r| gen::decode_op(&rg, &nt, cs, r)).collect();
+        let mut mem: Vec<String> = Vec::new();
+        let setup = s_raw.iter().flat_map(|r| gen::decode_op(&sg, &nt, cs, r, &mut mem)).collect();
+        let ro = r_raw.iter().flat_map(|r| gen::decode_op(&rg, &nt, cs, r, &mut mem)).collect();
         RoCase { vol, setup, ro, dirty: flags & 3 == 0, fsinfo_unknown: flags & 12 == 0, end_by_drop: flags & 16 != 0 }
     })
 }
